@@ -1,21 +1,26 @@
 #!/bin/bash
-# usage: bin/run-seeded.sh <seeded-id> [<Cnn> ...]   (default: the property the mutant was written for)
-# Applies /verif/seeded/<id>/patch.diff to /repo, runs the quick check(s), and
-# ALWAYS restores /repo afterwards. Prints one line per check: DETECTED / MISSED / BROKEN.
+# usage: bin/run-seeded.sh <seeded-id | path/to/patch.diff> [<Cnn> ...]
+# Runs the quick check(s) (default: the property the change was written for) against a scratch
+# worktree of /repo's HEAD with the change applied (VERIF_REPO). /repo itself is never touched,
+# evidence goes to a temp dir. Prints one line per check: DETECTED / MISSED / BROKEN.
+# (Equivalent to `git -C /repo apply <patch>; bin/check.sh ...; git -C /repo checkout -- .`,
+#  but safe while other runs are reading /repo.)
 set -u
 VERIF=$(cd "$(dirname "$0")/.." && pwd)
-ID=$1; shift
-P=$VERIF/seeded/$ID/patch.diff
-[ -f "$P" ] || { echo "no such seeded mutant $ID"; exit 2; }
-PROPS="$*"; [ -z "$PROPS" ] && PROPS=${ID%%-*}
-if [ -n "$(git -C /repo status --porcelain)" ]; then echo "/repo is not clean, refusing"; exit 2; fi
-restore() { git -C /repo reset -q --hard HEAD; git -C /repo clean -fdq; }
-trap restore EXIT
-git -C /repo apply "$P" 2>/dev/null || { echo "$ID: patch does not apply to the current /repo HEAD"; exit 2; }
-EVD=$(mktemp -d /tmp/verif-seeded-ev.XXXXXX)
-trap 'restore; rm -rf "$EVD"' EXIT
+ARG=$1; shift
+if [ -f "$ARG" ]; then P=$ARG; ID=$(basename "$(dirname "$ARG")"); PROPDEF=""; else P=$VERIF/seeded/$ARG/patch.diff; ID=$ARG; PROPDEF=${ARG%%-*}; fi
+[ -f "$P" ] || { echo "no such patch: $P"; exit 2; }
+PROPS="$*"; [ -z "$PROPS" ] && PROPS=$PROPDEF
+[ -z "$PROPS" ] && { echo "give the property id(s) to run"; exit 2; }
+TAG=rs-$$-$(echo "$ID" | tr -c 'A-Za-z0-9\n' '_')
+W=/tmp/$TAG; EVD=/tmp/$TAG-ev
+cleanup() { git -C /repo worktree remove --force "$W" >/dev/null 2>&1; rm -rf "$W" "$EVD" "$VERIF/.build/$TAG"; }
+trap cleanup EXIT
+mkdir -p "$EVD"
+git -C /repo worktree add -q --detach "$W" HEAD >/dev/null 2>&1 || { echo "$ID: cannot create scratch worktree"; exit 2; }
+git -C "$W" apply "$P" 2>/dev/null || { echo "$ID: patch does not apply to the current /repo HEAD"; exit 2; }
 for C in $PROPS; do
-  out=$(VERIF_EVIDENCE_DIR=$EVD bash "$VERIF/bin/check.sh" "$C" ${VERIF_TIER:-quick} 2>&1); rc=$?
+  out=$(VERIF_BUILD_TAG=$TAG VERIF_REPO=$W VERIF_EVIDENCE_DIR=$EVD bash "$VERIF/bin/check.sh" "$C" ${VERIF_TIER:-quick} 2>&1); rc=$?
   keys=$(echo "$out" | grep '^VIOLATION' | sed 's/.*key=\([^ ]*\).*/\1/' | sort -u | head -5 | tr '\n' ' ')
   case $rc in
     1) echo "$ID vs $C: DETECTED keys: $keys";;
